@@ -289,11 +289,33 @@ func (g *pnGen) fn(pkg, key string, fd *ast.FuncDecl, obj *types.Func) string {
 	}
 	var lets []string
 	stmts := fd.Body.List
+	locals := map[types.Object]bool{}
 	for len(stmts) > 1 {
+		// a local constant declaration: its uses are constants of the type checker, nothing to emit
+		if ds, ok := stmts[0].(*ast.DeclStmt); ok {
+			if gd, ok := ds.Decl.(*ast.GenDecl); ok && gd.Tok == token.CONST {
+				stmts = stmts[1:]
+				continue
+			}
+		}
 		as, ok := stmts[0].(*ast.AssignStmt)
+		// `x.f = e` on a local variable x that holds a translated struct (a node built field by field): x is rebound
+		if ok && as.Tok == token.ASSIGN && len(as.Lhs) == 1 && len(as.Rhs) == 1 {
+			if se, isSe := as.Lhs[0].(*ast.SelectorExpr); isSe {
+				id, isId := se.X.(*ast.Ident)
+				sel, isSel := g.info.Selections[se]
+				if isId && isSel && sel.Kind() == types.FieldVal && len(sel.Index()) == 1 && locals[g.info.Uses[id]] {
+					tn := g.typ(g.info.TypeOf(id))
+					lets = append(lets, "  let "+pnName(id.Name)+" : "+tn+" := { "+pnName(id.Name)+" with "+pnName(se.Sel.Name)+" := "+g.expr(as.Rhs[0], sel.Type())+" }\n")
+					stmts = stmts[1:]
+					continue
+				}
+			}
+		}
 		if !ok || as.Tok != token.DEFINE || len(as.Lhs) != 1 || len(as.Rhs) != 1 {
 			pgFail("statement %s is not supported", norm(stmts[0]))
 		}
+		locals[g.info.Defs[as.Lhs[0].(*ast.Ident)]] = true
 		id := as.Lhs[0].(*ast.Ident)
 		t := g.info.TypeOf(as.Rhs[0])
 		lets = append(lets, "  let "+pnName(id.Name)+" : "+g.typ(t)+" := "+g.expr(as.Rhs[0], t)+"\n")
